@@ -97,7 +97,8 @@ Other available commands:
 
 func doPerftDivide(perftArg string) {
 	depth, err := strconv.Atoi(perftArg)
-	if err != nil || depth <= 0 {
+	// the position stack has room for plyBufferCapacity nested moves
+	if err != nil || depth <= 0 || depth >= plyBufferCapacity {
 		fmt.Println("Invalid depth: ", perftArg)
 		return
 	}
@@ -110,7 +111,8 @@ func doPerftDivide(perftArg string) {
 
 func doTacticalPerftDivide(tperftArg string) {
 	depth, err := strconv.Atoi(tperftArg)
-	if err != nil || depth <= 0 {
+	// the position stack has room for plyBufferCapacity nested moves
+	if err != nil || depth <= 0 || depth >= plyBufferCapacity {
 		fmt.Println("Invalid depth: ", tperftArg)
 		return
 	}
